@@ -91,6 +91,7 @@ def run_case(mod, case, state=None):
 def shard_main(pid, tier, seed, shard, nshards, out_path):
     os.environ.setdefault("NUMBA_CACHE_DIR", numba_cache_dir())
     os.environ["VF_ROT"] = str(shard + 3 * seed)
+    os.environ["VF_TIER"] = tier
     core.import_hvsrpy()
     import hypothesis
     from hypothesis import given, settings, HealthCheck, Phase
@@ -146,7 +147,9 @@ def shard_main(pid, tier, seed, shard, nshards, out_path):
         result.update(status="violation", case=core.to_jsonable(case), message=v.message,
                       details=core.to_jsonable(v.details))
     except BaseException as e:  # harness error (incl. Hypothesis health checks, Flaky)
-        result.update(status="error", error="".join(traceback.format_exception(type(e), e, e.__traceback__))[-6000:])
+        tb = "".join(traceback.format_exception(type(e), e, e.__traceback__))
+        frames = [ln for ln in tb.splitlines() if ln.lstrip().startswith(("File ", "raise ", "Error", type(e).__name__))][-12:]
+        result.update(status="error", error=f"{type(e).__name__}: {str(e)[:600]}\n" + "\n".join(frames) + "\n...\n" + tb[-1500:])
     result.update(evaluations=state.evaluations, nontrivial=sorted(state.nontrivial),
                   labels=dict(state.labels), samples=list(state.samples.values()),
                   skipped_time=state.skipped_time, wall_s=time.time() - t0,
